@@ -46,6 +46,20 @@ pub fn guard<T, Er>(f: impl FnOnce() -> Result<T, Er>) -> Out<T> {
     }
 }
 
+/// like guard, for the bulk copies: also reports which side a CopyError blames
+pub fn copy_guard<RE, WE>(f: impl FnOnce() -> Result<(), CopyError<RE, WE>>) -> (Out<()>, &'static str)
+where
+    RE: std::error::Error + Send + Sync + 'static,
+    WE: std::error::Error + Send + Sync + 'static,
+{
+    match catch_unwind(AssertUnwindSafe(f)) {
+        Ok(Ok(())) => (Out::Ok(()), ""),
+        Ok(Err(CopyError::ReadError(_))) => (Out::Err, "read"),
+        Ok(Err(CopyError::WriteError(_))) => (Out::Err, "write"),
+        Err(_) => (Out::Panic, ""),
+    }
+}
+
 #[derive(Clone, Copy, Debug, PartialEq, Eq, Hash)]
 pub enum Fam {
     Unary,
@@ -144,7 +158,7 @@ pub trait DynWriter {
     /// counting wrappers: bits_written
     fn counter(&self) -> Option<u64>;
     /// optimised or default copy_from, from any reader of the same endianness
-    fn copy_from(&mut self, r: &mut dyn DynReader, n: u64) -> Out<()>;
+    fn copy_from(&mut self, r: &mut dyn DynReader, n: u64) -> (Out<()>, &'static str);
     fn is_le(&self) -> bool;
     /// abandon the writer without running its destructor (which flushes and unwraps):
     /// used for writers whose backend has already failed
@@ -163,7 +177,8 @@ pub trait DynReader {
     fn set_bit_pos(&mut self, p: u64) -> Option<Out<()>>;
     fn try_clone(&self) -> Option<Box<dyn DynReader>>;
     fn counter(&self) -> Option<u64>;
-    fn copy_to(&mut self, w: &mut dyn DynWriter, n: u64) -> Out<()>;
+    /// result and, on error, which side failed ("read" | "write")
+    fn copy_to(&mut self, w: &mut dyn DynWriter, n: u64) -> (Out<()>, &'static str);
     fn is_le(&self) -> bool;
 }
 
@@ -488,10 +503,10 @@ impl<E: Endianness, BW: AllWrite<E>> DynWriter for WrObj<E, BW> {
         let f = self.counter?;
         Some(f(self.w.as_ref().unwrap()))
     }
-    fn copy_from(&mut self, r: &mut dyn DynReader, n: u64) -> Out<()> {
+    fn copy_from(&mut self, r: &mut dyn DynReader, n: u64) -> (Out<()>, &'static str) {
         let w = self.w.as_mut().unwrap();
         let mut br = RBridge::<E>(r, PhantomData);
-        guard(|| w.copy_from::<E, _>(&mut br, n))
+        copy_guard(|| w.copy_from::<E, _>(&mut br, n))
     }
     fn is_le(&self) -> bool {
         E::IS_LITTLE
@@ -639,10 +654,10 @@ impl<E: Endianness, R: CodesRead<E> + 'static> DynReader for RdObj<E, R> {
         let f = self.counter?;
         Some(f(&self.r))
     }
-    fn copy_to(&mut self, w: &mut dyn DynWriter, n: u64) -> Out<()> {
+    fn copy_to(&mut self, w: &mut dyn DynWriter, n: u64) -> (Out<()>, &'static str) {
         let r = &mut self.r;
         let mut bw = WBridge::<E>(w, PhantomData);
-        guard(|| r.copy_to::<E, _>(&mut bw, n))
+        copy_guard(|| r.copy_to::<E, _>(&mut bw, n))
     }
     fn is_le(&self) -> bool {
         E::IS_LITTLE
